@@ -1,6 +1,8 @@
 //! uec-harness: correspondence harness between /repo's crates and the Lean models.
 mod driver;
+mod fam_sel;
 mod fam_stack;
+mod prims;
 mod report;
 mod rng;
 mod shard;
@@ -37,6 +39,7 @@ fn main() {
     std::panic::set_hook(Box::new(|_| {}));
     let rep = match fam.as_str() {
         "stack" => fam_stack::run(&cfg),
+        "sel" => fam_sel::run(&cfg),
         f => { eprintln!("unknown family {f}"); std::process::exit(2) }
     };
     let js = serde_json::to_string_pretty(&rep.to_json()).unwrap();
